@@ -1,0 +1,92 @@
+//go:build verif
+// +build verif
+
+package bfe_http2
+
+import (
+	"strconv"
+	"strings"
+)
+
+// VerifPrioTree is the minimal serverConn state adjustStreamPriority touches (the map of open
+// streams), plus a side list of every stream object ever created so that the out-of-tree
+// verification harness (property C36) can dump parent pointers of closed streams too.
+type VerifPrioTree struct {
+	sc  *serverConn
+	all []*stream
+}
+
+func NewVerifPrioTree() *VerifPrioTree {
+	return &VerifPrioTree{sc: &serverConn{streams: make(map[uint32]*stream)}}
+}
+
+// Open mirrors the tree-related lines of serverConn.processHeaders for a new stream:
+// sc.streams[id] = st; if f.HasPriority() { adjustStreamPriority(sc.streams, st.id, f.Priority) }.
+// It reports false (and does nothing) if an object with that id already exists.
+func (t *VerifPrioTree) Open(id uint32, hasPrio bool, p PriorityParam) bool {
+	for _, s := range t.all {
+		if s.id == id {
+			return false
+		}
+	}
+	st := &stream{sc: t.sc, id: id, state: stateOpen}
+	t.all = append(t.all, st)
+	t.sc.streams[id] = st
+	if hasPrio {
+		adjustStreamPriority(t.sc.streams, st.id, p)
+	}
+	return true
+}
+
+// Priority runs the real serverConn.processPriority on a PRIORITY frame.
+func (t *VerifPrioTree) Priority(id uint32, p PriorityParam) {
+	f := &PriorityFrame{FrameHeader: FrameHeader{valid: true, Type: FramePriority, Length: 5, StreamID: id}, PriorityParam: p}
+	_ = t.sc.processPriority(f)
+}
+
+// Close mirrors what serverConn.closeStream does to the tree: delete(sc.streams, st.id).
+func (t *VerifPrioTree) Close(id uint32) { delete(t.sc.streams, id) }
+
+// Dump prints every stream object in creation order as id:parent|-:weight:o|c .
+func (t *VerifPrioTree) Dump() string {
+	if len(t.all) == 0 {
+		return "-"
+	}
+	var sb strings.Builder
+	for i, s := range t.all {
+		if i > 0 {
+			sb.WriteByte(',')
+		}
+		sb.WriteString(strconv.FormatUint(uint64(s.id), 10))
+		sb.WriteByte(':')
+		if s.parent == nil {
+			sb.WriteByte('-')
+		} else {
+			sb.WriteString(strconv.FormatUint(uint64(s.parent.id), 10))
+		}
+		sb.WriteByte(':')
+		sb.WriteString(strconv.Itoa(int(s.weight)))
+		if t.sc.streams[s.id] == s {
+			sb.WriteString(":o")
+		} else {
+			sb.WriteString(":c")
+		}
+	}
+	return sb.String()
+}
+
+// HasCycle reports whether some parent chain does not end within len(all) steps (pointer walk,
+// so that the harness can stop before calling adjustStreamPriority on a cyclic tree, where its
+// ancestor loop would never return).
+func (t *VerifPrioTree) HasCycle() bool {
+	for _, s := range t.all {
+		n := 0
+		for p := s; p != nil; p = p.parent {
+			n++
+			if n > len(t.all)+1 {
+				return true
+			}
+		}
+	}
+	return false
+}
